@@ -454,6 +454,32 @@ class _Coherence(Client):
         return (state,)
 
 
+def membership_polarity(cf, test, key: str, f: Func) -> Optional[bool]:
+    """True: `test` holds exactly when the key parameter is in the cache's dict; False: exactly when it is not; None: not a
+    membership test.  Forms: `k in self.<dict>` / `k in self` / `k not in ...`, `not <membership>`, and
+    `n = self.<dict>.get(k)` followed by `n is None` / `n is not None` (stored nodes are never None)."""
+    if isinstance(test, ast.UnaryOp) and isinstance(test.op, ast.Not):
+        r = membership_polarity(cf, test.operand, key, f)
+        return None if r is None else (not r)
+    if not (isinstance(test, ast.Compare) and len(test.ops) == 1):
+        return None
+    op, a, b = test.ops[0], test.left, test.comparators[0]
+    if isinstance(op, (ast.In, ast.NotIn)) and isinstance(a, ast.Name) and a.id == key \
+            and (cf.is_dict(b, f) or (isinstance(b, ast.Name) and b.id == f.self_name)):
+        return isinstance(op, ast.In)
+    if isinstance(op, (ast.Is, ast.IsNot)) and isinstance(b, ast.Constant) and b.value is None and isinstance(a, ast.Name):
+        from ..flow import Flow
+        fl = getattr(f.node, "_flow", None)
+        if fl is None:
+            fl = f.node._flow = Flow(f.node)
+        defs = list(fl.defs_of(a))
+        if defs and all(isinstance(d_.value, ast.Call) and isinstance(d_.value.func, ast.Attribute) and d_.value.func.attr == "get"
+                        and cf.is_dict(d_.value.func.value, f) and len(d_.value.args) == 1 and not d_.value.keywords
+                        and isinstance(d_.value.args[0], ast.Name) and d_.value.args[0].id == key for d_ in defs):
+            return isinstance(op, ast.IsNot)
+    return None
+
+
 def _cmp(op, x, y) -> Optional[bool]:
     if isinstance(op, ast.Lt): return x < y
     if isinstance(op, ast.LtE): return x <= y
